@@ -321,6 +321,9 @@ func (p *c18) Init(tier string) {
 		if f.name == "ARRAY" {
 			p.cases = append(p.cases, c18case{fi, "literals", 0})
 		}
+		if f.name == "ELEMENTAT" {
+			p.cases = append(p.cases, c18case{fi, "large", 0})
+		}
 	}
 }
 
@@ -334,6 +337,9 @@ func (p *c18) Describe(i int) any {
 	f := &p.fns[c.fn]
 	if c.kind == "contexts" {
 		return map[string]any{"function": "CONSTANT / GETVAR", "kind": "the configured constant / variable is returned in every nested context (derived table, CTE, union branches, subqueries, join side, nested FROM) under every combination of the other options"}
+	}
+	if c.kind == "large" {
+		return map[string]any{"function": "ELEMENTAT / FIRST / LAST", "kind": "arrays of more than a million elements: indices around 10^6 (a double of that size prints in exponent form), the last index, the length; index given as a column, as a literal and as an expression"}
 	}
 	if c.kind == "literals" {
 		return map[string]any{"function": "ARRAY / IF / CONCAT / ENCODE / FIRST / CHANGETYPE", "kind": "arguments written as SQL literals: numeric literals next to string literals spelled the same ('1' and 1), in one query, across rows and across queries of one process"}
@@ -535,6 +541,49 @@ func (p *c18) checkCall(r *core.CaseResult, f *c18fn, args []any) {
 // runLiterals: arguments written as literals in the query text (the other cases pass them as
 // columns): a string literal keeps its kind whatever numeric literal of the same spelling was
 // evaluated before it - in the same call, the same query, an earlier row or an earlier query.
+// runLarge: ELEMENTAT / FIRST / LAST on arrays whose length and indices lie beyond 10^6
+// (numbers of that size print in exponent form under %v; an index read back from its text is lost).
+func (p *c18) runLarge(r *core.CaseResult) {
+	r.Nontrivial = true
+	for _, n := range []int{1000001, 1200000} {
+		arr := make([]any, n)
+		for i := range arr {
+			arr[i] = float64(i) + 0.5
+		}
+		doc := map[string]any{"t": []any{map[string]any{"arr": arr, "i": 0.0}}}
+		row := doc["t"].([]any)[0].(map[string]any)
+		for _, i := range []int{0, 7, 999999, 1000000, 1000001, 1048576, 1199999, 9999999, 10000000, n - 1, n, n + 1} {
+			for _, form := range []string{"ELEMENTAT(arr, i)", fmt.Sprintf("ELEMENTAT(arr, %d)", i), fmt.Sprintf("ELEMENTAT(arr, %d + 1 - 1)", i)} {
+				row["i"] = float64(i)
+				o := gq.Run(doc, "SELECT "+form+" AS v FROM t")
+				r.Execs++
+				cs := map[string]any{"sql": "SELECT " + form + " AS v FROM t", "array-length": n, "i": i}
+				switch {
+				case o.Panic != "":
+					r.Fail("C18|ELEMENTAT|large|panic", fmt.Sprintf("%s on an array of %d elements, i = %d: panic %s", form, n, i, o.Panic), cs)
+				case i >= n:
+					if o.Err == nil {
+						r.Fail("C18|ELEMENTAT|large|no-error", fmt.Sprintf("%s on an array of %d elements, i = %d: returned %s, an index beyond the end is an error", form, n, i, gq.Render(o.Rows)), cs)
+					}
+				case o.Err != nil:
+					r.Fail("C18|ELEMENTAT|large|error", fmt.Sprintf("%s on an array of %d elements, i = %d: error %v, want %v", form, n, i, o.Err, float64(i)+0.5), cs)
+				default:
+					want := gq.Render([]any{map[string]any{"v": float64(i) + 0.5}})
+					if got := gq.Render(o.Rows); got != want {
+						r.Fail("C18|ELEMENTAT|large|wrong-value", fmt.Sprintf("%s on an array of %d elements, i = %d: returned %s, want %s", form, n, i, got, want), cs)
+					}
+				}
+			}
+		}
+		o := gq.Run(doc, "SELECT FIRST(arr) AS f, LAST(arr) AS l FROM t")
+		r.Execs++
+		want := gq.Render([]any{map[string]any{"f": 0.5, "l": float64(n-1) + 0.5}})
+		if got := gq.Render(o.Rows); o.Err != nil || got != want {
+			r.Fail("C18|FIRST-LAST|large|wrong-value", fmt.Sprintf("FIRST / LAST on an array of %d elements: %s (%v), want %s", n, got, o.Err, want), map[string]any{"array-length": n})
+		}
+	}
+}
+
 func (p *c18) runLiterals(r *core.CaseResult) {
 	doc := func() map[string]any {
 		return map[string]any{"t": []any{map[string]any{"n": 1.0}, map[string]any{"n": 2.0}, map[string]any{"n": 10.0}}}
@@ -668,6 +717,10 @@ func (p *c18) RunCase(i int) *core.CaseResult {
 	}
 	if c.kind == "literals" {
 		p.runLiterals(r)
+		return r
+	}
+	if c.kind == "large" {
+		p.runLarge(r)
 		return r
 	}
 	if c.kind == "arity" {
